@@ -102,3 +102,41 @@ Qed.
 Example parses_applies :
   forall content, target (runE ev_enospc w0) 0 = Some content -> parseE content = Some 7.
 Proof. vm_compute. intros content H. inversion H. reflexivity. Qed.
+
+(* ---------------------------------------------------------------- two writers *)
+From CJ Require Import C20.Model2.
+Notation run2E := (run2 cfgE marshalE parseE).
+Definition w2 : world2 cfgE :=
+  mkW2 [((0, Target), [1; 7; 7; 7])] []
+       (mkP 7 0 [SetConf 9] Idle [] []) (mkP 7 0 [SetConf 20] Idle [] []).
+
+(* 12. an interleaving with distinct temporary names: both stores complete, the file is one of the two *)
+Definition ev_two := [Step2 true NoFault 3; Step2 false NoFault 4; Step2 true NoFault 3; Step2 false NoFault 4;
+                      Step2 false NoFault 4; Step2 true NoFault 3; Step2 false NoFault 4; Step2 true NoFault 3;
+                      Step2 true NoFault 3; Step2 false NoFault 4].
+Example two_writers_ok :
+  safe_run cfgE marshalE parseE ev_two w2 = true /\
+  target2 (run2E ev_two w2) 0 = Some [1; 9; 9; 9] /\
+  q_hist (pa (run2E ev_two w2)) = [HDone 0 (Some [1; 9; 9; 9]) true] /\
+  q_hist (pb (run2E ev_two w2)) = [HDone 0 (Some [1; 20; 20; 20]) true].
+Proof. vm_compute. auto. Qed.
+
+(* 13. the name assumption is necessary: if both processes use the SAME temporary name, B's create
+       truncates what A has written, A renames the empty file over ClientConf and reports success:
+       the file is neither configuration (this is what a fixed temporary name would allow) *)
+Definition ev_collide := [Step2 true NoFault 3; Step2 true NoFault 3; Step2 false NoFault 3;
+                          Step2 true NoFault 3; Step2 true NoFault 3; Step2 true NoFault 3].
+Example collision_breaks_atomicity :
+  safe_run cfgE marshalE parseE ev_collide w2 = false /\
+  target2 (run2E ev_collide w2) 0 = Some [] /\
+  q_hist (pa (run2E ev_collide w2)) = [HDone 0 (Some [1; 9; 9; 9]) true].
+Proof. vm_compute. auto. Qed.
+
+Example two_writers_theorem_applies :
+  forall d, target2 (run2E ev_two w2) d = target2 w2 d \/
+            (target2 (run2E ev_two w2) d = None /\ removed2 d ev_two = true) \/
+            (exists evs1 evs2 who b, ev_two = evs1 ++ evs2 /\
+               marshalE (q_mem (proc_of (run2E evs1 w2) who)) = Some b /\ target2 (run2E ev_two w2) d = Some b).
+Proof.
+  intro d. apply C20_two_writers_never_partial; [reflexivity | reflexivity | vm_compute; reflexivity].
+Qed.
